@@ -76,7 +76,9 @@ FindExtrema ==
 
 FindZerox ==
   /\ stage = "zerox"
-  /\ IF ~(ZeroxDefined(ext[1], ext[2]) /\ Alternating(ext[1], ext[2]) /\ Len(ext[1]) = Len(ext[2]) /\ Len(ext[1]) >= 2 /\ ext[1][1] < ext[2][1])
+  /\ IF ~(/\ \A k \in 1 .. Len(ext[1]) : ext[1][k] \in 0 .. (c.n - 1)
+          /\ \A k \in 1 .. Len(ext[2]) : ext[2][k] \in 0 .. (c.n - 1)
+          /\ ZeroxDefined(ext[1], ext[2]) /\ Alternating(ext[1], ext[2]) /\ Len(ext[1]) = Len(ext[2]) /\ Len(ext[1]) >= 2 /\ ext[1][1] < ext[2][1])
        THEN fails' = fails \o <<"C01.extrema_not_alternating_peak_first">> /\ zx' = zx /\ stage' = "finish"
        ELSE LET sav == sa
                 sz == Zerox(sav, ext[1], ext[2])
@@ -97,7 +99,7 @@ Assemble ==
                               \o Fail(Len(c.rows) = Len(sr), "C01.one_row_per_cycle")
                               \o (IF c.has_samples THEN Fail(lg = sr, "C01.rows") \o Fail(TableWF(lg, c.n, c.B), "C01.wellformed") ELSE <<>>)
                               \o Fail(c.rs = c.has_samples, "C01.return_samples")
-            /\ rows' = IF c.has_samples /\ Len(lg) = Len(sr) THEN lg ELSE sr
+            /\ rows' = IF c.has_samples /\ Len(lg) = Len(sr) /\ TableWF(lg, c.n, -1) THEN lg ELSE sr      \* adopt the logged rows only when they can be indexed
             /\ stage' = IF Len(c.rows) = Len(sr) THEN "shape" ELSE "finish"
   /\ UNCHANGED <<tid, ext, zx>>
 
